@@ -1315,9 +1315,15 @@ def _rewrite_check(rt):
                                          None if col.mask is None else bcif.BinaryCIFData.deserialize(col.mask.serialize())) for k, col in cat.items()}
         return {k: (c[k].data.array.tolist(), None if c[k].mask is None else c[k].mask.array.tolist()) for k in ("id", "x", "plain")}
 
+    first = None
+    try:
+        clone = f.copy()
+    except Exception as e:  # noqa: BLE001
+        return [("C05/rewrite/copy-fails", f"BinaryCIFFile.copy(): {type(e).__name__}: {e}")]
     for frame in range(rt["frames"]):
         try:
             got = snapshot()
+            first = first or got
         except Exception as e:  # noqa: BLE001
             return [("C05/rewrite/fails", f"frame {frame} through {through}: {type(e).__name__}: {e}")]
         for k, col in cat.items():
@@ -1329,6 +1335,17 @@ def _rewrite_check(rt):
         cat["x"].mask.array[:] = np.roll(cat["x"].mask.array, 1)
         cat["id"].data.array[:] += 1
         cat["plain"].data.array[r.randrange(n)] += 1
+    # the copy taken before the edits still holds (and writes) the first content
+    try:
+        buf = io.BytesIO()
+        clone.write(buf)
+        buf.seek(0)
+        c = bcif.BinaryCIFFile.read(buf)["blk"]["atoms"]
+        got = {k: (c[k].data.array.tolist(), None if c[k].mask is None else c[k].mask.array.tolist()) for k in ("id", "x", "plain")}
+    except Exception as e:  # noqa: BLE001
+        return [("C05/rewrite/copy-fails", f"writing a copy() of the file: {type(e).__name__}: {e}")]
+    if through == "file" and got != first:
+        return [("C05/rewrite/copy-not-independent", f"copy() taken before in-place edits of the original writes {got}, the original then held {first}")]
     return []
 
 
